@@ -42,7 +42,11 @@ var eCommentTexts = []string{"", " ", "\t", "! comment", "# comment", "#", "!", 
 
 func eGenLine(r *rng) string {
 	var l string
-	switch r.n(16) {
+	switch r.n(17) {
+	case 16:
+		// N2: a LONG line (comment, valid rule with a long literal run / many tokens / a long list, rejected line, cosmetic,
+		// hosts): 64 bytes … 9 KiB (comments: 70 KB, lists: 2.6 KB), half of the time just above 255 / 256 / 300 / 1024 / 4096 / 8192 … bytes
+		l = n2GenLongLine(r, "")
 	case 0, 1, 2, 3:
 		l = eGenParseText(r)
 	case 4, 5:
@@ -333,6 +337,34 @@ func genC12Crash(r *rng, n int, w *bufio.Writer) {
 	}
 }
 
+// n2LongNoise: a LONG line that yields no rule (comment, or rejected: unknown modifier, invalid domain list, invalid
+// cosmetic domains), written about host h.
+func n2LongNoise(r *rng, h string) string {
+	for {
+		kind := pick(r, []string{"comment!", "comment#", "rejected-mod", "rejected-mod", "rejected-domain", "rejected-domain", "cosmetic-rejected", "regex"})
+		max := 200000
+		if kind == "rejected-domain" || kind == "cosmetic-rejected" {
+			max = 40000
+		}
+		n := n2Above(r, 200, max)
+		if r.chance(1, 3) {
+			n = n2LogSize(r, 200, max)
+		}
+		l := n2LongLine(r, kind, n, h)
+		ok := guardStr(func() string {
+			rule, err := rules.NewRule(l, 1)
+			if rule == nil || err != nil {
+				return "T"
+			}
+
+			return "F"
+		})
+		if ok == "T" {
+			return l
+		}
+	}
+}
+
 // eNoiseLine returns a line that yields no rule: blank, comment or rejected.
 func eNoiseLine(r *rng) string {
 	for {
@@ -378,11 +410,48 @@ func genC12Inert(r *rng, n int, w *bufio.Writer) {
 			}
 			lines = append(lines, l)
 		}
+		web, dns, hosts := eBatch(r, lines, 8)
+		// N2: LIVE rules for queried hosts, each directly behind a LONG inert line (comment or rejected line of 200 bytes …
+		// 200 KB: above 255 / 300 / 1024 / the 4 KiB read buffer / 64 KiB) -- a scanner that mistreats the long line (takes
+		// it for a rule, drops the line after it, loses its place) changes the answers for that host
+		pre := make([]string, len(lines))
+		if r.chance(1, 2) {
+			var qhosts []string
+			for _, h := range hosts {
+				if h != "" {
+					qhosts = append(qhosts, h)
+				}
+			}
+			for _, d := range dns {
+				if d.Hostname != "" {
+					qhosts = append(qhosts, d.Hostname)
+				}
+			}
+			for _, q := range web {
+				if q.Hostname != "" {
+					qhosts = append(qhosts, q.Hostname)
+				}
+			}
+			for k := 1 + r.n(3); k > 0 && len(qhosts) > 0; k-- {
+				h := pick(r, qhosts)
+				live := pick(r, []string{"||" + h + "^$important", "@@||" + h + "^$important", "0.0.0.0 " + h, h + "##.n2live", "||" + h + "^$dnsrewrite=1.2.3.4",
+					"||" + h + "^", "@@||" + h + "^$elemhide,important", h, "#@#.banner", "##.n2generic"})
+				if f, err := guardRule(live, 1); err != nil || f == nil {
+					continue
+				}
+				at := r.n(len(lines) + 1)
+				lines = append(lines[:at:at], append([]string{live}, lines[at:]...)...)
+				pre = append(pre[:at:at], append([]string{n2LongNoise(r, h)}, pre[at:]...)...)
+			}
+		}
 		// noise insertions
 		var noisy []string
-		for _, l := range lines {
+		for i, l := range lines {
 			for r.chance(1, 3) {
 				noisy = append(noisy, eNoiseLine(r))
+			}
+			if pre[i] != "" {
+				noisy = append(noisy, pre[i])
 			}
 			noisy = append(noisy, l)
 		}
@@ -394,7 +463,6 @@ func genC12Inert(r *rng, n int, w *bufio.Writer) {
 			sep = "\r\n"
 		}
 		a := strings.Join(lines, "\n")
-		web, dns, hosts := eBatch(r, lines, 8)
 		if r.chance(1, 3) {
 			// noise lines longer than the scanner's read buffer whose tail, were it ever read as a line of
 			// its own, would be a live rule for one of the queried hosts
